@@ -30,6 +30,20 @@ CHECKS.update({
              text="Bounded symbolic model checking of lattice well-formedness after each of <=3 operations (match, widen, extend, continue_with_distance, repeated match); one-step upsert harness from an arbitrary entry (identity of filed entries preserved, better candidate kept); IEEE-754 guard lemma (emitting Float64, non-emitting Float16/32).",
              note="Reals except the FP lemma; non-emitting FP lemma only at reduced width (stated); sequences longer than 3 outside."),
 })
+CHECKS.update({
+ 'C06': dict(tech="relational symbolic execution of real match() with non-emitting states off/on in one path over abstract geometry (z3 LRA/NRA)", ref="5/C06",
+             text="Bounded symbolic model checking: on every joint path of the two runs the matched prefix with non-emitting states is not shorter and, for complete matches, the best probability not lower.",
+             note="Abstract geometry is a superset of real geometries (candidates only reported after concrete replay); first-order families; graphs <=4 nodes, T<=3."),
+ 'C08': dict(tech="relational symbolic execution: incremental schedule vs one-shot match of the real matcher in one path over abstract geometry (z3)", ref="5/C08",
+             text="Bounded symbolic model checking: every one- and two-cut extension schedule gives the same index and probability (path up to exact ties) as a fresh one-shot match, cut-offs symbolic.",
+             note="Reals; AbsMap contract; T<=4 on 2-edge graphs else 3."),
+ 'C10': dict(tech="relational symbolic execution under engine-chosen iteration/listing orders (values_all stub, edge/node/neighbour listing) in one path (z3)", ref="5/C10",
+             text="Bounded symbolic model checking: for every permutation of set iteration order and map listing order within the bounds the index and probability coincide (paths only differ on exact ties).",
+             note="LatticeColumn.values_all replaced by an order-parametrised stub that over-approximates hash order; AbsMap contract."),
+ 'C19': dict(tech="relational symbolic execution of real match() at ERROR and DEBUG level in one path over abstract geometry (z3)", ref="5/C19",
+             text="Bounded symbolic model checking: same index, probability and (up to exact ties) path at both log levels on every joint path, with symbolic cut-offs so that stopped candidates exist.",
+             note="Sym.__format__ placeholder for log formatting; ties between equally probable alternatives are not distinguished (C10's caveat)."),
+})
 NA = {
  'C15': "error bound between two transcendental computations (great-circle vs locally projected planar): needs a delta-complete procedure for sin/cos/atan2; z3 has none and cvc5 QF_NRAT timed out on the 3-variable core (DESIGN.md section 8)",
 }
